@@ -57,12 +57,15 @@ def run(chk, replay=None):
         bad = copy.deepcopy(rows)
         i = next(k for k, e in enumerate(bad) if e["nres"] == 1 and e["names"])
         bad[i]["shape"].insert(12, 0)
+        bad[i + 1]["equal"] = 0
         p = chk.path("selftest.ndjson")
         vt.write_ndjson(p, bad)
         r2 = vt.tlc("Trace_C05", env={"TRACE": p}, workers=1, tag="C05")
-        if r2.rc == 0:
-            raise vt.MachineryError("binding self-test: corrupted trace accepted")
-        chk.cov["binding_selftest"] = "an extra newline token inserted into the shape of case %d: rejected (matched %s)" % (i + 1, r2.matched)
+        r3 = vt.tlc("Trace_C05", env={"TRACE": p, "LAYOUT": "1"}, workers=1, tag="C05")
+        if r2.rc == 0 or r2.matched != i + 1 or r3.rc == 0 or r3.matched != i:
+            raise vt.MachineryError("binding self-test: corrupted trace accepted (%s, %s)" % (r2.matched, r3.matched))
+        chk.cov["binding_selftest"] = ("field mismatch flagged in case %d: rejected by the property pass (matched %s); an extra newline token in the shape of "
+                                       "case %d: rejected by the layout pass (matched %s)" % (i + 2, r2.matched, i + 1, r3.matched))
 
 
 def replay(chk, path):
